@@ -299,6 +299,7 @@ class Config:
         self.node_params: dict[str, Any] = {}
         self.prune = True
         self.elapsed = "1"
+        self.timed = False
         self.__dict__.update(kw)
 
 
@@ -411,7 +412,13 @@ class Run:
         return ev
 
     def duration_of(self, ev: dict[str, Any]) -> Any:
-        return 0
+        if not self.config.timed:
+            return 0
+        limit = float(ev["params"].get("test_timeout", 3600))
+        d = z3.Real(self.eng.fresh(f"duration{ev['exec']}"))
+        self.eng.assume(z3.And(d > 0, d < z3.RealVal(repr(limit))), check=False)
+        ev["duration"] = d
+        return d
 
     def elapsed_of(self, ev: dict[str, Any]) -> str:
         return self.config.elapsed
@@ -621,8 +628,12 @@ def traverse(run: Run, params: dict[str, Any] | None = None) -> None:
     params = params if params is not None else run.scenario.param_dict()
     workers = sorted(graph.workers.values(), key=lambda w: w.params["name"])
     coros = {w.id: graph.traverse_object_trees(w, params) for w in workers}
+    on_step = lambda wid, kind: run.trace.append({"kind": "step", "idx": len(run.trace), "worker": wid, "what": kind})
     try:
-        run.steps = vsched.run_choice(coros, K=run.config.K, max_steps=run.config.max_steps, on_step=lambda wid, kind: run.trace.append({"kind": "step", "idx": len(run.trace), "worker": wid, "what": kind}))
+        if run.config.timed:
+            run.steps = vsched.run_timed(coros, max_steps=run.config.max_steps, on_step=on_step)
+        else:
+            run.steps = vsched.run_choice(coros, K=run.config.K, max_steps=run.config.max_steps, on_step=on_step)
     except (vsched.WorkerCrash, vsched.Livelock, vsched.StepBound) as e:
         run.crash = e
     finally:
